@@ -756,6 +756,92 @@ func c15(c *core.Ctx) {
 	c.Family("sender", c.N(60000, 20000000), c15Sender)
 	c.Family("reference-orders", c.N(40000, 10000000), c15Reference)
 	c.Family("bit-flips", c.N(200, 40000), c15Flips)
+	// a RECEIVED packet is completed through the API with two to four attribute kinds it did not carry (AT_MAC among
+	// them), the code is computed, set, and the packet sent: the transmitted code must be the HMAC over exactly the
+	// transmitted octets; repeated, because the order of attributes added later is where implementations wobble
+	c.Family("amend-decoded-then-mac", c.N(3000, 300000), func(k *core.Case) {
+		noiseFor(k)
+		key := k.R.Bytes(32)
+		all := []uint8{abs.ATRand, abs.ATAutn, abs.ATRes, abs.ATKdfInput, abs.ATKdf, abs.ATCheckcode}
+		mask := k.R.Intn(64)
+		recv := &abs.AKA{Subtype: uint8(k.R.Pick(1, 2, 5))}
+		var later []uint8
+		for bi, t := range all {
+			if mask>>uint(bi)&1 == 1 {
+				recv.Attrs = append(recv.Attrs, gen.AKAWith(k.R, 1, 1<<uint([]int{0, 1, 2, 4, 5, 6}[bi])).Attrs...)
+			} else {
+				later = append(later, t)
+			}
+		}
+		for x := len(recv.Attrs) - 1; x > 0; x-- { // any order on the wire
+			y := k.R.Intn(x + 1)
+			recv.Attrs[x], recv.Attrs[y] = recv.Attrs[y], recv.Attrs[x]
+		}
+		wire0, err := ref.EncodeEAP(&abs.EAP{Code: 1, ID: k.R.Byte(), Method: &abs.Method{Type: abs.MAkaPrime, AKA: recv}}, &ref.Opts{AKAOrder: true})
+		if err != nil {
+			return
+		}
+		nAdd := minI(len(later), k.R.Pick(1, 2, 3))
+		for rep := 0; rep < 4; rep++ {
+			k.Eval(1)
+			le := new(eap.EAP)
+			if err := le.Unmarshal(append([]byte{}, wire0...)); err != nil {
+				return
+			}
+			ap := le.EapTypeData.(*eap.EapAkaPrime)
+			var bad string
+			var wire, mac []byte
+			pn := core.Try(func() {
+				for _, t := range later[:nAdd] {
+					v := gen.AKAWith(core.NewRng(uint64(k.Index), uint64(t)), 1, 1<<uint(map[uint8]int{abs.ATRand: 0, abs.ATAutn: 1, abs.ATRes: 2, abs.ATKdfInput: 4, abs.ATKdf: 5, abs.ATCheckcode: 6}[t])).Attrs[0].Value
+					if v == nil {
+						v = abs.HB{}
+					}
+					if err := ap.SetAttr(eap.EapAkaPrimeAttrType(t), v); err != nil {
+						bad = "SetAttr: " + err.Error()
+						return
+					}
+				}
+				if err := ap.SetAttr(eap.AT_MAC, make([]byte, 16)); err != nil {
+					bad = "SetAttr(AT_MAC): " + err.Error()
+					return
+				}
+				var err error
+				if mac, err = le.CalcEapAkaPrimeAtMAC(key); err != nil {
+					bad = "calc: " + err.Error()
+					return
+				}
+				if err = ap.SetAttr(eap.AT_MAC, mac); err != nil {
+					bad = err.Error()
+					return
+				}
+				wire, err = le.Marshal()
+				if err != nil {
+					bad = "marshal: " + err.Error()
+				}
+			})
+			w := M{"received": core.Hex(wire0), "added_attribute_kinds": later[:nAdd], "k_aut": core.Hex(key), "sent": core.HexClip(wire, 2048), "repetition": rep}
+			if pn != nil {
+				k.Violate("panic", "amend-then-mac: "+pn.Sig(), "panic", panicData(pn, w))
+				return
+			}
+			if bad != "" {
+				k.Violate("error", "amend-then-mac-error: "+classifyErr(fmt.Errorf("%s", bad)), bad, w)
+				return
+			}
+			off := macOffset(wire)
+			if off < 0 || !bytes.Equal(mac, refMAC(key, wire, off)) {
+				k.Violate("mismatch", "sender-mac-differs-from-reference/received-packet-completed-through-the-API", fmt.Sprintf("transmitted code %x is not the HMAC over the transmitted octets", mac), w)
+				return
+			}
+			if ok, why, _ := accept(wire, key); !ok {
+				k.Violate("mismatch", "receiver-rejects-genuine/received-packet-completed-through-the-API", why, w)
+				return
+			}
+		}
+		k.Count("received_packets_completed_then_authenticated", 1)
+		k.Distinct(fmt.Sprintf("amendmac|%d|%d", mask, nAdd))
+	})
 	// two different packets (same key) that agree in a weak fingerprint: AT_RAND of the second is solved for
 	c.Family("colliding-packets", c.N(len(core.Fingerprints)*6, len(core.Fingerprints)*300), func(k *core.Case) {
 		fp := core.Fingerprints[k.Index%len(core.Fingerprints)]
@@ -858,6 +944,6 @@ func c15(c *core.Ctx) {
 		k.Count("parallel_sessions_agree", 1)
 		k.Distinct(fmt.Sprintf("parallel|%d", len(ss)))
 	})
-	c.Require("colliding_packet_pairs", "receiver_read_all_attributes_before_computing", "sender_read_all_attributes_before_computing", "receiver_made_refused_setter_calls_first", "parallel_sessions_agree", "sender_receiver_agree", "reference_packets_accepted", "reference_packets_over_4k", "exhaustive_flip_packets", "flip_region_attr-padding", "flip_region_attr-reserved-or-bitlen",
+	c.Require("received_packets_completed_then_authenticated", "colliding_packet_pairs", "receiver_read_all_attributes_before_computing", "sender_read_all_attributes_before_computing", "receiver_made_refused_setter_calls_first", "parallel_sessions_agree", "sender_receiver_agree", "reference_packets_accepted", "reference_packets_over_4k", "exhaustive_flip_packets", "flip_region_attr-padding", "flip_region_attr-reserved-or-bitlen",
 		"flip_region_mac-value", "flip_region_eap-header", "flip_region_aka-header", "flip_region_attr-type", "flip_region_attr-length", "flip_region_attr-value")
 }
